@@ -1086,12 +1086,21 @@ C19(cfg, obs) ==
       nmax == cfg.nodes[cfg.root].n
       kD == {i \in Calls(obs) : ToC(obs, i, K) /\ obs[i].t = "D"}
       kT == {i \in Calls(obs) : ToC(obs, i, K) /\ IsEndT(obs[i].t)}
+      \* data handed to take: directly by the puppet, or through merge! (which relays every member datum)
+      upKind == cfg.nodes[cfg.nodes[cfg.root].ups[1]].kind
+      offered == Cardinality({i \in Calls(obs) : obs[i].to = "S" /\ obs[i].t = "D" /\ obs[i].fr \in US})
+      \* the n-th item is due: n data were handed to take (known for puppet / merge! upstreams), or n were delivered
+      enough == IF upKind \in {"puppet", "merge"} THEN offered >= nmax ELSE Cardinality(kD) >= nmax
   IN
   {W("C19", "panic", i, "", cfg, "") : i \in {i \in Idx(obs) : obs[i].k = "panic"}}
   \cup
   (IF Cardinality(kD) > nmax THEN {W("C19", "over_delivery", Max(kD), K, cfg, "")} ELSE {})
   \cup
-  (IF Cardinality(kD) >= nmax /\ ~Panicked(obs) /\ Cardinality(kT) # 1
+  \* a delivery that is dropped although fewer than n went through (then take never terminates anything)
+  (IF enough /\ ~Panicked(obs) /\ Cardinality(kD) < nmax
+   THEN {W("C19", "under_delivery", Len(obs), K, cfg, "")} ELSE {})
+  \cup
+  (IF enough /\ ~Panicked(obs) /\ Cardinality(kT) # 1
    THEN {W("C19", "sink_end", Len(obs), K, cfg, "")} ELSE {})
   \cup
   (IF Cardinality(kT) > 1 THEN {W("C19", "sink_end", Max(kT), K, cfg, "twice")} ELSE {})
@@ -1101,7 +1110,7 @@ C19(cfg, obs) ==
     LET stops == {b \in Calls(obs) : ToC(obs, b, u) /\ IsEndT(obs[b].t)} IN
     (IF Cardinality(stops) > 1 THEN {W("C19", "upstream_end", Max(stops), u, cfg, "twice")} ELSE {})
     \cup
-    (IF Cardinality(kD) >= nmax /\ ~Panicked(obs) /\ stops = {}
+    (IF enough /\ ~Panicked(obs) /\ stops = {}
         /\ ~USelfEndedBefore(obs, u, Len(obs) + 1)
      THEN {W("C19", "upstream_end", Len(obs), u, cfg, "missing")} ELSE {})
     : u \in US}
